@@ -205,9 +205,30 @@ impl BigRat {
 		clippy::cast_precision_loss
 	)]
 	pub(crate) fn from_f64<I: Interrupt>(mut f: f64, int: &I) -> FResult<Self> {
+		if !f.is_finite() {
+			// infinities and NaN have no rational value (the cast below would
+			// turn them into 2^64 and 0)
+			return Err(FendError::ValueTooLarge);
+		}
 		let negative = f < 0.0;
 		if negative {
 			f = -f;
+		}
+		if f >= 18_446_744_073_709_551_616.0 {
+			// 2^64 and above: the cast below would saturate. Such an f64 is an
+			// integer, mantissa * 2^exponent with exponent >= 12: convert it exactly.
+			let bits = f.to_bits();
+			let exponent = ((bits >> 52) & 0x7ff) - 1075;
+			let mantissa = (bits & ((1 << 52) - 1)) | (1 << 52);
+			return Ok(Self {
+				sign: if negative {
+					Sign::Negative
+				} else {
+					Sign::Positive
+				},
+				num: BigUint::from(mantissa).lshift_n(&BigUint::from(exponent), int)?,
+				den: BigUint::from(1),
+			});
 		}
 		let i = (f * u64::MAX as f64) as u128;
 		let part1 = i as u64;
